@@ -149,10 +149,12 @@ class _Walker(object):
         elif isinstance(o, _Context):
             emit("ctx")
         elif isinstance(o, _tbase.DelayedCall):
-            emit("DelayedCall", round(o.time - self.now, 9), o.cancelled, o.called)
-            self.walk(o.func)
-            self.walk(o.args)
-            self.walk(o.kw)
+            emit("DelayedCall", round(o.time - self.now, 9) if not (o.cancelled or o.called) else "done",
+                 o.cancelled, o.called)
+            # a cancelled / fired call has dropped its references
+            self.walk(getattr(o, "func", None))
+            self.walk(getattr(o, "args", None))
+            self.walk(getattr(o, "kw", None))
         elif isinstance(o, _failure.Failure):
             emit("Failure", o.type.__module__, o.type.__qualname__)
             self.walk(o.value)
